@@ -30,6 +30,21 @@ func c10World(tp *Tape, env *Env) (*Plan, *Violation) {
 	}
 	g := &gen{tp: tp, cfg: cfg}
 	prog := g.program()
+	if cfg.WWait > 0 && tp.Chance(10, "hostwait") {
+		// the host registers a command of its own under the name wait: from then on <<wait n>> is the host's command
+		// like any other (invoked once with n, complete when the host says so), not the built-in sleep
+		cfg.Handlers = append(cfg.Handlers, HandlerSpec{Name: "wait", Shape: handlerShapes[tp.Int(0, len(handlerShapes)-1, "waitshape")], Params: []string{"float64"}})
+		for _, n := range prog.Nodes {
+			walkStmts(n.Body, func(s *Stmt) {
+				if s.K == sWait {
+					s.K, s.Cmd = sCommand, "wait"
+					s.Args = []CmdArg{{E: s.E}}
+					s.E = nil
+				}
+			})
+		}
+		env.St.fault("host_registers_its_own_wait")
+	}
 	layout := genLayout(tp)
 	w := World{Readers: distribute(tp, prog, layout, 1)}
 	hostHandlers := cfg.Handlers
